@@ -5,6 +5,7 @@ import (
 	"go/ast"
 	"go/token"
 	"go/types"
+	"sort"
 	"strconv"
 	"strings"
 )
@@ -700,6 +701,44 @@ func (c *FuncCtx) havocLoop(st *State, li *loopInfo) {
 		for _, k := range sortedKeys(li.modHeap.fields) {
 			c.havocKey(st, k, li.modHeap.fields[k])
 		}
+		// fields written only through loop-invariant pointer variables: only
+		// those cells are forgotten
+		modified := map[*types.Var]bool{}
+		for _, o := range li.modVars {
+			modified[o] = true
+		}
+		for _, k := range sortedKeys(li.modHeap.cells) {
+			if _, whole := li.modHeap.fields[k]; whole {
+				continue
+			}
+			ft := li.modHeap.ctypes[k]
+			wholeNeeded := false
+			var refs []string
+			for v := range li.modHeap.cells[k] {
+				pv, ok := st.vars[v]
+				if !ok || modified[v] || c.heapLocals[v] {
+					wholeNeeded = true
+					break
+				}
+				refs = append(refs, pv.S)
+			}
+			if wholeNeeded {
+				c.havocKey(st, k, ft)
+				continue
+			}
+			sort.Strings(refs)
+			parts := strings.SplitN(k, ".", 2)
+			arr := c.heapArr(st, parts[0], parts[1], ft)
+			for _, r := range refs {
+				nv := c.fresh("hv_"+parts[0]+"_"+parts[1], c.eng.sortOf(ft))
+				arr = mkStore(arr, r, nv)
+				st.assume(c.eng.typeFacts(nv, ft))
+			}
+			st.heap[k] = c.shareTerm(st, arr, fmt.Sprintf("(Array Int %s)", c.eng.sortOf(ft)), "H_"+parts[0]+"_"+parts[1])
+		}
+		for _, f := range sortedKeys(li.modHeap.traces) {
+			c.traceHavoc(st, f)
+		}
 	}
 }
 
@@ -861,6 +900,7 @@ func (c *FuncCtx) execRange(st *State, x *ast.RangeStmt) []outcome {
 	} else {
 		el := c.val(mkSel(acc("base_"+coll.Sort, coll.S), mkAdd(acc("off_"+coll.Sort, coll.S), k)), under(coll.T).(*types.Slice).Elem())
 		b.assume(c.eng.typeFacts(el.S, el.T))
+		c.wfElem(b, el)
 		bindKV(&Val{T: tInt, S: k, Sort: "Int"}, el)
 		next = mkAdd(k, "1")
 	}
